@@ -200,6 +200,10 @@ def mk_image_nonzero(kind, dim, affine=False):
                 for j in range(i + 1, n):
                     ctx.lemma_by_unfolding(f"adj-back[{i}{j}]", back[i] * xe[j], back[j] * xe[i])
             ctx.require(f"C06:{kind}:image-nonzero", R.nonzero(ctx, ye))
+        elif kind in ("segment", "triangle", "polygon4"):
+            # every vertex of the image is a valid point (a vertex mapped to infinity stays a non-zero vector)
+            for i in range(x.array.shape[0]):
+                ctx.require(f"C06:{kind}:vertex[{i}]-image-nonzero", R.nonzero(ctx, E(y.array[i])))
         else:
             ctx.require(f"C06:{kind}:image-nonzero", R.nonzero(ctx, ye))
     return case
@@ -451,6 +455,37 @@ def mk_crossratio_invariant(dim, affine=False, from_point=False):
     return case
 
 
+INT_M = {3: [[2, 0, 1], [0, 3, 0], [1, 0, 1]], 4: [[2, 0, 1, 0], [0, 3, 0, 1], [1, 0, 1, 0], [0, 0, 0, 2]]}
+
+
+def mk_int_matrix(dim):
+    """transformation given by an integer-typed matrix with |det| != 1 (its inverse is not an integer matrix)"""
+    def case(ctx):
+        from geometer import Transformation
+        n = dim + 1
+        M = INT_M[n]
+        T = Transformation(np.array(M))
+        Ti = T.inverse()
+        prod = R.mat((T * Ti).array)
+        I = [[1 if i == j else 0 for j in range(n)] for i in range(n)]
+        for tag in ("C06", "C07"):
+            ctx.require(f"{tag}:int-matrix:T*T^-1=identity", R.proportional(ctx, flat(prod), flat(I)))
+            ctx.require(f"{tag}:int-matrix:inverse-nonzero", R.nonzero(ctx, E(Ti.array)))
+        h, x = objects(ctx, "hyper", dim), objects(ctx, "point", dim)
+        hx = T * h
+        for tag in ("C06", "C07"):
+            ctx.require(f"{tag}:int-matrix:hyper-image-nonzero", R.nonzero(ctx, E(hx)))
+            ctx.require(f"{tag}:int-matrix:hyper-image-incidence-reference", ctx.iff(ctx.is_zero(R.dot(E(hx), R.matvec(M, E(x)))), ctx.is_zero(R.dot(E(h), E(x)))))
+            ctx.require(f"{tag}:int-matrix:contains-preserved", ctx.iff(ctx.truth(h.contains(x)), ctx.truth(hx.contains(T * x))))
+        q = objects(ctx, "quadric", dim)
+        qx = T * q
+        y = R.matvec(M, E(x))
+        A2, A = R.mat(qx.array), R.mat(q.array)
+        for tag in ("C06", "C07"):
+            ctx.require(f"{tag}:int-matrix:quadric-image-incidence-reference", ctx.iff(ctx.is_zero(R.dot(y, R.matvec(A2, y))), ctx.is_zero(R.dot(E(x), R.matvec(A, E(x))))))
+    return case
+
+
 def mk_polytope_vertices(kind, dim, affine=False):
     def case(ctx):
         n = dim + 1
@@ -466,6 +501,8 @@ def mk_polytope_vertices(kind, dim, affine=False):
         k = x.array.shape[0]
         for i in range(k):
             ctx.require(f"C07:{kind}:vertex[{i}]-is-image", R.proportional(ctx, E(y.array[i]), R.matvec(M, E(x.array[i]))))
+            if dim == 2:
+                ctx.require(f"C07:{kind}:vertex[{i}]-image-nonzero", R.nonzero(ctx, E(y.array[i])))
         cached_consistent(ctx, kind, y, "C07")
     return case
 
@@ -486,6 +523,9 @@ def all_cases(which):
                 cs.append((f"group_{kind}_3d_affine", mk_group(kind, 3, affine=True), dict(tiers=Tt)))
             if dim == 3:
                 cs.append((f"group_{kind}_3d_general", mk_group(kind, 3, affine=False), dict(tiers=Tt)))
+        for kind in ("point", "hyper", "segment", "triangle", "polygon4"):
+            cs.append((f"image_nonzero_{kind}_{dim}d", mk_image_nonzero(kind, dim, affine=(dim == 3 and kind not in ("point", "hyper"))), dict(tiers=Q if (dim == 2 or kind == "segment") else ("attempt",))))
+        cs.append((f"int_matrix_{dim}d", mk_int_matrix(dim), dict(tiers=Q)))
         cs.append((f"compose_{dim}d", case_compose_matrix(dim, affine=False), dict(tiers=Q)))
         if dim == 2:
             cs.append(("grid_lattice", case_grid_lattice, dict(tiers=Q)))
@@ -506,6 +546,8 @@ def c07_cases():
         cs.append((f"tangent_{dim}d", mk_tangent_preserved(dim, affine=(dim == 3)), dict(tiers=Q if dim == 2 else Tt)))
         cs.append((f"polytope_segment_{dim}d", mk_polytope_vertices("segment", dim), dict(tiers=Q)))
         cs.append((f"polytope_polygon4_{dim}d", mk_polytope_vertices("polygon4", dim, affine=(dim == 3)), dict(tiers=Q)))
+    cs.append(("int_matrix_2d", mk_int_matrix(2), dict(tiers=Q)))
+    cs.append(("int_matrix_3d", mk_int_matrix(3), dict(tiers=Q)))
     cs.append(("incidence_line3_3d", mk_incidence("line3", 3, affine=True), dict(tiers=Q)))
     cs.append(("incidence_plane_line_3d", case_plane_line_incidence, dict(tiers=Q)))
     cs.append(("big_collection_2d", mk_big_collection(2), dict(tiers=Q)))
